@@ -208,6 +208,24 @@ func (f *coreForest) ancestorFault(r *rep.Report, l, bad string, wit rep.J) {
 	} else {
 		outs["event"] = nil
 	}
+	// a script at l that swallows the failed inherited search and goes on: what it does next still concerns l
+	x, serr := loc.RunJavascript(drv.Ctx(), "try { Env.Search({k:'?v'}) } catch (e) {}; Env.AddFact('written-after-fault', {w:'here'}); Env.Location", nil, nil, nil)
+	r.Count("ancestor_fault_script_probes", 1)
+	where := []string{}
+	for n, other := range f.locs {
+		if _, gerr := other.GetFact(drv.Ctx(), "written-after-fault"); gerr == nil {
+			where = append(where, n)
+			other.RemFact(drv.Ctx(), "written-after-fault")
+		}
+	}
+	sort.Strings(where)
+	if serr != nil || fmt.Sprint(x) != l || len(where) != 1 || where[0] != l {
+		w := rep.J{"at": l, "ancestor_that_cannot_be_opened": bad, "Env.Location": fmt.Sprint(x), "script_error": drv.ErrStr(serr), "fact_found_in": where}
+		for k, v := range wit {
+			w[k] = v
+		}
+		r.Violate("", "after a failed inherited search (swallowed by the script) the script's next write went to another location than its own", w)
+	}
 	for name, err := range outs {
 		r.Count("ancestor_fault_probes", 1)
 		if err == nil {
@@ -749,9 +767,60 @@ func factPrefix(hi int, loc string) string {
 	return loc + "-"
 }
 
+// failedWalk: an inherited search that fails while it visits an ancestor (here: a pattern the
+// matcher refuses only when it meets a candidate fact, and only the parent holds one), swallowed by
+// the script that issued it.  What the rule of the child does next still concerns the child.
+func failedWalk(r *rep.Report) {
+	for _, kind := range drv.Kinds {
+		for variant := 0; variant < 2; variant++ {
+			f := newCoreForest(kind, []string{"C", "P", "Q"})
+			ctx := drv.Ctx()
+			f.locs["P"].AddFact(ctx, "p1", core.Map{"other": 2.0, "a": 1.0})
+			f.locs["Q"].AddFact(ctx, "q1", core.Map{"unrelated": "x"})
+			f.locs["C"].SetParents(ctx, []string{"Q", "P"})
+			swallow := "try { Env.Search({'?p':1,'other':2}); } catch (e) { }; true"
+			write := "Env.AddFact('written', {writtenBy:'rule of C'}); Env.RemFact('p1'); Env.Location"
+			rule := core.Map{"when": map[string]interface{}{"pattern": map[string]interface{}{"go": "?x"}}}
+			if variant == 0 {
+				rule["condition"] = map[string]interface{}{"code": swallow}
+				rule["action"] = map[string]interface{}{"code": write}
+			} else {
+				rule["policies"] = map[string]interface{}{"serialActions": true}
+				rule["actions"] = []interface{}{map[string]interface{}{"code": swallow}, map[string]interface{}{"code": write}}
+			}
+			if _, err := f.locs["C"].AddRule(ctx, "r", rule); err != nil {
+				r.Violate("", "AddRule failed: "+err.Error(), nil)
+				continue
+			}
+			fr, cond := f.locs["C"].ProcessEvent(drv.Ctx(), core.Map{"go": "now"})
+			r.Case(true, fmt.Sprint("failed-walk", kind, variant))
+			r.Count("failed_walk_cases", 1)
+			vals := []string{}
+			if fr != nil {
+				for _, v := range fr.Values {
+					vals = append(vals, fmt.Sprint(v))
+				}
+			}
+			where := []string{}
+			for _, n := range []string{"C", "P", "Q"} {
+				if _, err := f.locs[n].GetFact(drv.Ctx(), "written"); err == nil {
+					where = append(where, n)
+				}
+			}
+			_, p1err := f.locs["P"].GetFact(drv.Ctx(), "p1")
+			if len(where) != 1 || where[0] != "C" || p1err != nil || len(vals) == 0 || vals[len(vals)-1] != "C" {
+				r.Violate("", "after an inherited search failed at an ancestor (swallowed by the script), the rule of the child wrote into / removed from another location", rep.J{"state": kind, "swallowed_in": []string{"condition", "first of two serial actions"}[variant], "values": vals, "condition": cond, "fact_written_found_in": where, "parent_fact_p1_still_there": p1err == nil})
+			}
+		}
+	}
+}
+
 func main() {
 	e := rep.GetEnv()
 	r := rep.New(e)
+	if e.Stage != "loops" && e.Batch == 0 {
+		failedWalk(r)
+	}
 	if e.Stage == "loops" {
 		r.WritePartial()
 		loops(r, e)
